@@ -27,6 +27,9 @@ func (c *Cluster) RoundTrip(group string, req *http.Request) (*http.Response, er
 	// an injected fault answers with the configured status (500 unless FailCode says 403 or 422)
 	faultStatus := func(msg string) *http.Response {
 		switch c.FailCode {
+		case 5001:
+			// what kubectl reports when an HTTP/2 stream breaks (the library retries an APIService client-side on this text)
+			return status(500, "InternalError", "stream error: stream ID 1; INTERNAL_ERROR; "+msg)
 		case 403:
 			return status(403, "Forbidden", msg)
 		case 422:
